@@ -4,3 +4,4 @@ pub mod prog;
 pub mod report;
 pub mod runner;
 pub mod globmodel;
+pub mod arith;
